@@ -416,13 +416,6 @@ theorem cover_iff (d v : ER) : cover d v = true ↔
   simp only [Bool.or_eq_true, Bool.and_eq_true, decide_eq_true_eq]
   omega
 
-/-- hypothesis of the positive theorem for one value: when the value is going to be inserted (it strictly
-covers some destination it overlaps) it must strictly cover **every** destination it overlaps. -/
-def NoCrossing (dst : List ER) (v : ER) : Prop :=
-  (∃ d ∈ dst, overlap d v = true ∧ cover d v = true) → ∀ d ∈ dst, overlap d v = true → cover d v = true
-
-instance (dst : List ER) (v : ER) : Decidable (NoCrossing dst v) := by unfold NoCrossing; infer_instance
-
 theorem insertAtFirst_mem (p : ER → Bool) (v : ER) (l : List ER) (x : ER) (hx : x ∈ insertAtFirst p v l) :
     x = v ∨ (x ∈ l ∧ p x = false) := by
   induction l with
@@ -490,17 +483,6 @@ theorem addOne_disjoint (skip : ER → Bool) (dst : List ER) (v : ER) (hd : dst.
         · have := hall ho
           simp [ho, this] at hp
       · exact hd
-
-/-- the hypothesis for a whole `add_to` call: `NoCrossing` at every step, against the list as it is then. -/
-def NoCrossingAll (skip : ER → Bool) : List ER → List ER → Prop
-  | _, [] => True
-  | dst, v :: rest => (skip v = false → NoCrossing dst v) ∧ NoCrossingAll skip (addOne skip dst v) rest
-
-instance decNoCrossingAll (skip : ER → Bool) : ∀ (src dst : List ER), Decidable (NoCrossingAll skip dst src)
-  | [], _ => isTrue trivial
-  | v :: rest, dst => by
-    unfold NoCrossingAll
-    exact @instDecidableAnd _ _ _ (decNoCrossingAll skip rest _)
 
 theorem addTo_disjoint (skip : ER → Bool) (src : List ER) :
     ∀ dst, dst.Pairwise Disjoint → NoCrossingAll skip dst src → (addTo skip dst src).Pairwise Disjoint := by
